@@ -994,11 +994,11 @@ func (r *Raft) AppendEntries(request *AppendEntriesRequest, response *AppendEntr
 			r.logger.Fatalf("failed to truncate log: %v", err)
 		}
 
-		// Fall back to the committed configuration if the current one is
-		// truncated. This is necessary since a partitioned leader may have
-		// received a membership change request.
+		// Fall back to the most recent configuration that remains in the log, or to the
+		// committed configuration if there is none, if the current one is truncated. This
+		// is necessary since a partitioned leader may have received a membership change request.
 		if entry.Index <= r.configuration.Index {
-			r.nextConfiguration(r.committedConfiguration)
+			r.nextConfiguration(r.configurationBefore(entry.Index))
 		}
 
 		toAppend = request.Entries[i:]
@@ -1007,6 +1007,20 @@ func (r *Raft) AppendEntries(request *AppendEntriesRequest, response *AppendEntr
 
 	if err := r.log.AppendEntries(toAppend); err != nil {
 		r.logger.Fatalf("failed to append entries to log: %v", err)
+	}
+
+	// A configuration is in force as soon as it is in the log, on every node: a node that
+	// waited until the entry is applied would still hold elections and count votes with the
+	// previous configuration while the rest of the cluster has moved on.
+	for i := len(toAppend) - 1; i >= 0; i-- {
+		if toAppend[i].EntryType != ConfigurationEntry {
+			continue
+		}
+		// An entry that cannot be decoded is not fatal before it is committed.
+		if configuration, err := r.transport.DecodeConfiguration(toAppend[i].Data); err == nil {
+			r.nextConfiguration(&configuration)
+			break
+		}
 	}
 
 	// Only the entries up to the last one covered by this request are known to match the log
@@ -1945,8 +1959,37 @@ func (r *Raft) applyConfiguration(configurationData []byte) {
 	if r.committedConfiguration != nil && configuration.Index <= r.committedConfiguration.Index {
 		return
 	}
-	r.nextConfiguration(&configuration)
+
+	// A more recent configuration that is in the log but not committed yet may already
+	// be in force.
+	if r.configuration == nil || configuration.Index >= r.configuration.Index {
+		r.nextConfiguration(&configuration)
+	}
 	r.committedConfiguration = &configuration
+}
+
+// configurationBefore returns the most recent configuration in the log that precedes
+// the provided index. If there is none, the committed configuration is returned.
+func (r *Raft) configurationBefore(index uint64) *Configuration {
+	// A node that has not applied a configuration yet has no committed configuration.
+	committed := r.committedConfiguration
+	if committed == nil {
+		committed = &Configuration{}
+	}
+	for i := index - 1; i > r.lastIncludedIndex && i > committed.Index; i-- {
+		entry, err := r.log.GetEntry(i)
+		if err != nil {
+			r.logger.Fatalf("failed to get entry from log: error = %v", err)
+		}
+		if entry.EntryType != ConfigurationEntry {
+			continue
+		}
+		// An entry that cannot be decoded is not fatal before it is committed.
+		if configuration, err := r.transport.DecodeConfiguration(entry.Data); err == nil {
+			return &configuration
+		}
+	}
+	return committed
 }
 
 // readOnlyLoop is a long running loop that applies read-only operations to the state machine.
